@@ -163,6 +163,8 @@ def run(corrupt=None):
     import random as _r
     rnd2 = _r.Random(ck.seed + 1)
     long_opts = [o for o in rnd2.sample(options, 2500) if o["max_time"] != 0][:(900 if thorough else 320)]
+    # a finite positive time limit on some of them (expires at an arbitrary iteration)
+    long_opts = [dict(o, max_time=(0.02 if i % 5 == 0 else o["max_time"])) for i, o in enumerate(long_opts)]
     spec_traces += sweep(ck, [(5, 1), (6, 2)] if thorough else [(5, 1)], long_opts, seeds, "long_runs_5_points", max_traces=(600 if thorough else 200), num_iters=15)
     cli_runs(ck, thorough)
     if corrupt == "trace" and spec_traces:
